@@ -30,10 +30,14 @@ const (
 	// character that is NOT one of the four bytes the book excludes (blank,
 	// tab, CR, LF): form feed, then NUL, a hex digit and 0x1f.
 	BinaryCtrlStart
+	// BinaryHexAndCtrl: binary eexec whose first four cipher bytes are three
+	// hex digits and one control byte that is white space to a PostScript
+	// scanner but not to the eexec rule (NUL): '1' 00 'f' '7'.
+	BinaryHexAndCtrl
 	NumContainers
 )
 
-var containerNames = []string{"pfa", "binary", "pfb", "noeexec", "pfbsplit", "binary-hexstart", "binary-ctrlstart"}
+var containerNames = []string{"pfa", "binary", "pfb", "noeexec", "pfbsplit", "binary-hexstart", "binary-ctrlstart", "binary-hex-and-ctrl"}
 
 // ContainerName names a container format.
 func ContainerName(c int) string { return containerNames[c] }
@@ -512,7 +516,7 @@ func Generate(m *t1model.Font, opt *Options) ([]byte, error) {
 			out.WriteString(eol)
 		}
 		out.Write(trailer.buf.Bytes())
-	case Binary, BinaryHexStart, BinaryCtrlStart:
+	case Binary, BinaryHexStart, BinaryCtrlStart, BinaryHexAndCtrl:
 		out.Write(clear.buf.Bytes())
 		lead := binaryLead()
 		if opt.Container == BinaryHexStart {
@@ -520,6 +524,9 @@ func Generate(m *t1model.Font, opt *Options) ([]byte, error) {
 		}
 		if opt.Container == BinaryCtrlStart {
 			lead = leadFor([4]byte{0x0c, 0x00, 'a', 0x1f})
+		}
+		if opt.Container == BinaryHexAndCtrl {
+			lead = leadFor([4]byte{'1', 0x00, 'f', '7'})
 		}
 		cipher := eexecEncrypt(priv.buf.Bytes(), lead)
 		if opt.Container == BinaryHexStart && string(cipher[:3]) != "a7F" {
